@@ -82,8 +82,41 @@ def watch_findall(yp):
     orig = yp.eval_context.get(key)
     if orig is None or getattr(orig, '_verif_wrapped', False):
         return
+    # findall/3 enumerates its goal through self.call: an instance attribute routes that one call through a wrapper that
+    # looks at the instance of the template at every answer.  A variable created after the findall call started and
+    # found in the instances of two DIFFERENT answers (it was created before the choice point at which they diverge) is
+    # ONE object in the engine, whereas the model renames the inner variables of every answer apart; whatever is bound
+    # through such a variable later (a non-variable bag, a later goal) differs.  Such a query is not compared with the model.
+    orig_call = yp.call
+    armed = [None]
+    def call(goal, *args):
+        ctx = armed[0]
+        armed[0] = None
+        if ctx is None:
+            yield from orig_call(goal, *args)
+            return
+        template, start = ctx
+        seen = set()
+        n = 0
+        for r in orig_call(goal, *args):
+            n += 1
+            if n > CAP:
+                yp._verif_findall_big = True      # like a query with more than CAP answers: too large for the eagerly evaluated model
+            try:
+                inner = {v._verif_serial for v in _term_variables(engine, template, []) if getattr(v, '_verif_serial', 0) > start}
+            except RecursionError:
+                inner = set()
+                yp._verif_findall_inner = True
+            if inner:
+                yp._verif_findall_inner = True
+                if inner & seen:
+                    yp._verif_findall_shared = True
+                seen |= inner
+            yield r
+    yp.call = call
     def findall_3(template, goal, bag):
         start = _SERIAL[0]
+        armed[0] = (template, start)
         for r in orig(template, goal, bag):
             try:
                 if any(getattr(v, '_verif_serial', 0) > start for v in _term_variables(engine, bag, [])):
@@ -120,6 +153,8 @@ def run_queries(yp, case, T_factory=None):
         n = 0
         g = None
         yp._verif_findall_inner = False
+        yp._verif_findall_shared = False
+        yp._verif_findall_big = False
         # per-query search budget: the enclosing per-case timer of the runner is suspended and re-armed afterwards
         outer_left, _ = signal.getitimer(signal.ITIMER_REAL)
         outer_handler = signal.signal(signal.SIGALRM, _budget_alarm)
@@ -156,7 +191,9 @@ def run_queries(yp, case, T_factory=None):
                 signal.setitimer(signal.ITIMER_REAL, max(0.05, outer_left))
         leftover = [i for i in range(nq) if T.vars[i]._is_bound]
         out.append({'answers': canon_answers(answers), 'count': n, 'end': end, 'leftover': leftover,
-                    'findall_inner': bool(getattr(yp, '_verif_findall_inner', False))})
+                    'findall_inner': bool(getattr(yp, '_verif_findall_inner', False)),
+                    'findall_shared': bool(getattr(yp, '_verif_findall_shared', False)),
+                    'findall_big': bool(getattr(yp, '_verif_findall_big', False))})
     return out
 
 def impl(case):
@@ -178,7 +215,7 @@ def compared_queries(case, io):
     within the budget and the answer cap (the model is evaluated eagerly inside Coq)"""
     if not isinstance(io, dict) or 'queries' not in io:
         return list(range(len(case['queries'])))
-    return [i for i, iq in enumerate(io['queries']) if iq['end'] not in ('cap', 'budget')]
+    return [i for i, iq in enumerate(io['queries']) if iq['end'] not in ('cap', 'budget') and not iq.get('findall_shared') and not iq.get('findall_big')]
 
 def model_expr(case, io=None):
     """the model is given the same source TEXT as the implementation: its own front end (Lang/Front.v) reads it"""
@@ -188,7 +225,7 @@ def model_expr(case, io=None):
         q = case['queries'][qi]
         args, nq = query_terms(q)
         qs.append('(%s, %s, %s)' % (g_str(q[0]), g_list([g_term(a) for a in args]), g_nat(nq)))
-    return '(run_both_src %d %s %s %d)' % (DEPTH, g_cps(cps(source_of(case))), g_list(qs), LIMIT)
+    return '(%s %d %s %s %d)' % ('run_three_src' if case.get('three_views') else 'run_both_src', DEPTH, g_cps(cps(source_of(case))), g_list(qs), LIMIT)
 
 def model_views(mo):
     """[(ir_view, sld_view)] per query; a view is dict answers/count/err"""
@@ -221,6 +258,8 @@ def compare(case, io, mo):
             ir = dict(ir, answers=anon_vars(ir['answers'])) if 'answers' in ir else ir
             sld = dict(sld, answers=anon_vars(sld['answers'])) if 'answers' in sld else sld
         sldr = vs[2] if len(vs) > 2 else None
+        if sldr is not None and iq.get('findall_inner') and 'answers' in sldr:
+            sldr = dict(sldr, answers=anon_vars(sldr['answers']))
         qtxt = ast_io.term_text(['fun', q[0], q[1]]) if q[1] else q[0]
         if ir.get('stuck'):
             return 'model compiler stuck'
@@ -239,7 +278,15 @@ def compare(case, io, mo):
             # It binds a goal's unbound variable to the clause's fresh variable where the compiled code merely names the
             # argument, so under findall - whose model renames variables created inside the goal apart per answer - the
             # two may differ in the IDENTITY of unbound variables inside collected instances; nothing else may differ.
-            if not ('findall' in source_of(case) and ir['count'] == sld['count'] and anon_vars(ir['answers']) == anon_vars(sld['answers'])):
+            # Once such an instance meets a non-variable bag, or a later goal looks at the variable, the difference in identity
+            # becomes a difference in answers; a case that is evaluated with the third view (SldR.solveR: the reference of the
+            # proved chain, which keeps the caller's variable) is judged by that view instead.
+            fa = 'findall' in source_of(case) or q[0] == 'findall'
+            if fa and case.get('sld_aux_only'):
+                pass        # larger programs with non-variable bags: no third view (solveR is slow on bushy searches), Sld.solve not judged
+            elif fa and sldr is not None and not sldr.get('err') and not sldr.get('stuck') and ir['answers'] == sldr['answers'] and ir['count'] == sldr['count']:
+                pass
+            elif not (fa and ir['count'] == sld['count'] and anon_vars(ir['answers']) == anon_vars(sld['answers'])):
                 return 'query %s: compiled-code model and SLD reference differ (%d vs %d answers)' % (qtxt, ir['count'], sld['count'])
         if sldr is not None and not sldr.get('err') and (ir['answers'] != sldr['answers'] or ir['count'] != sldr['count']):
             return 'query %s: compiled-code model and renamed-apart SLD reference (SldR.solveR) differ (%d vs %d answers) - this contradicts a proved theorem: harness bug' % (qtxt, ir['count'], sldr['count'])
@@ -304,6 +351,8 @@ def stats(cases, obs):
             d['queries'] += 1
             if iq.get('findall_inner'):
                 d['queries_where_findall_collected_inner_variables'] += 1
+            if iq.get('findall_shared'):
+                d['queries_not_compared_with_the_model_because_answers_share_an_inner_variable'] = d.get('queries_not_compared_with_the_model_because_answers_share_an_inner_variable', 0) + 1
             n = iq['count']
             k = '0' if n == 0 else '1' if n == 1 else '2-5' if n <= 5 else '6+'
             d['answers_hist'][k] += 1
